@@ -26,6 +26,12 @@ def workload(seed, big):
         (base, "select t.a, s.b from t left join s on t.a = s.a where t.a < 50"),
         (base, "select count(*) from t join s on t.a < s.a and t.b = 1"),
         (base, "select distinct b, c from t"),
+        # semi / anti joins: hash (equality correlation) and nested loop (inequality correlation)
+        (base, "select a from s where exists (select 1 from t where t.a = s.a)"),
+        (base, "select a from s where not exists (select 1 from t where t.a = s.b)"),
+        (base, "select a from s where exists (select 1 from t where t.a < s.a and t.b = 6)"),
+        (base, "select a from s where not exists (select 1 from t where t.a > s.a + 2150)"),
+        (base, "delete from s where not exists (select 1 from t where t.a > s.a + 2150)"),
         (base, "insert into s select a, b from t where b = 2"),
         (base, "delete from t where b = 3"),
         (base, "insert into t values (5001, 1, 'x'), (5002, 2, 'y')"),
